@@ -30,4 +30,5 @@ Definition run (comp : Z) (inp : list Z) : list Z :=
   else if comp =? 60 then run_merge inp
   else if comp =? 70 then run_iter_num inp
   else if comp =? 71 then run_play inp
+  else if comp =? 61 then run_file_hist inp
   else [-3].
